@@ -301,6 +301,9 @@ def run_base_capa(
     # Used to get the final set of anomalies after the loop.
     opt_anomaly_starts = np.repeat(np.nan, n)
     starts = np.array([], dtype=int)
+    # Starts found to have too low saving at each of the last min_segment_length - 1
+    # samples.
+    low_saving_starts = []
 
     ts = np.arange(n)
     for t in ts:
@@ -342,9 +345,13 @@ def run_base_capa(
         if collective_possible:
             penalty_sum = collective_alpha + collective_betas.sum()
             saving_too_low = candidate_savings + penalty_sum < opt_savings[t + 1]
-            too_long_segment = starts < t - max_segment_length + 2
-            prune = saving_too_low | too_long_segment
-            starts = starts[~prune]
+            # A start with too low saving now can still be optimal for the next
+            # min_segment_length - 1 samples, because no collective anomaly starting
+            # after t can end there. The removal is therefore delayed.
+            low_saving_starts.append(starts[saving_too_low])
+            if len(low_saving_starts) >= min_segment_length:
+                starts = starts[~np.isin(starts, low_saving_starts.pop(0))]
+            starts = starts[starts >= t - max_segment_length + 2]
 
     collective_anomalies, point_anomalies = get_anomalies(opt_anomaly_starts)
     return opt_savings[1:], collective_anomalies, point_anomalies
